@@ -39,7 +39,8 @@ fn target(kind: &str) -> std::path::PathBuf {
 /// Build (natively) and run one scenario natively: the digest every Miri seed must reproduce.
 pub fn native_digest(kind: &str, scenario: usize) -> Result<String, String> {
   let out = Command::new("cargo")
-    .args(["run", "--offline", "--quiet", "--", kind, &scenario.to_string()])
+    // twin scenarios: the reference digest comes from the same calls made without any concurrency
+    .args(["run", "--offline", "--quiet", "--", if kind == "twin" { "twinseq" } else { kind }, &scenario.to_string()])
     .current_dir(scn_dir())
     .env("CARGO_TARGET_DIR", target("miri-native"))
     .env("CARGO_NET_OFFLINE", "true")
